@@ -60,22 +60,25 @@ def binop {α β γ : Type} (f : α → β → γ) (a : Tens α) (b : Tens β) :
 
 /-- The in-place loop over buffer positions `i, i+1, …` (`n` of them): read `buf[i]`, write
 `f buf[i] (b at i)` back to the same slot.  `bAt` is the other operand seen through its
-broadcast view. -/
-def inPlaceLoop {α β : Type} (f : α → β → α) (bAt : Nat → Option β) : Nat → Nat → List α → List α
-  | _, 0, buf => buf
+broadcast view.  `none`: an index outside the buffer or outside `b`'s broadcast — the code
+excludes this with `assert!(cycles * b.len() * repeats == a.len())` / equal-shape asserts before
+its unchecked accesses, i.e. a panic. -/
+def inPlaceLoop {α β : Type} (f : α → β → α) (bAt : Nat → Option β) : Nat → Nat → List α → Option (List α)
+  | _, 0, buf => some buf
   | i, n + 1, buf =>
     match buf[i]?, bAt i with
     | some x, some y => inPlaceLoop f bAt (i + 1) n (buf.set i (f x y))
-    | _, _ => inPlaceLoop f bAt (i + 1) n buf
+    | _, _ => none
 
 /-- `binary_op_in_place(a.view_mut(), b, f)`: the owned tensor keeps its shape and buffer. -/
-def binopInPlace {α β : Type} (f : α → β → α) (a : Tens α) (b : Tens β) : Tens α :=
-  ⟨a.shape, inPlaceLoop f (fun i => (bcastTo b.data b.shape a.shape)[i]?) 0 a.data.length a.data⟩
+def binopInPlace {α β : Type} (f : α → β → α) (a : Tens α) (b : Tens β) : Option (Tens α) :=
+  (inPlaceLoop f (fun i => (bcastTo b.data b.shape a.shape)[i]?) 0 a.data.length a.data).map
+    (fun d => ⟨a.shape, d⟩)
 
 /-- `run_typed_op_in_place!`: in place when `can_run_binary_op_in_place`, otherwise the owned
 input goes back to the pool and the out-of-place kernel runs. -/
 def runInPlace {α β : Type} (f : α → β → α) (a : Tens α) (b : Tens β) : Option (Tens α) :=
-  if canRunInPlace a.shape b.shape then some (binopInPlace f a b) else binop f a b
+  if canRunInPlace a.shape b.shape then binopInPlace f a b else binop f a b
 
 /-- Did `runInPlace` reuse the owned buffer? -/
 def reusesBuffer (a b : List Nat) : Bool := canRunInPlace a b
